@@ -65,7 +65,8 @@ for root, _dirs, files in sorted(os.walk(FIX)):
                     als = list(shim._subvar_aliases)
                     sids = list(shim._subvar_ids) or [None] * len(rids)
                     for k, e in enumerate(dm.all_elements):
-                        els.append({"id": rids[k], "alias": als[k], "subvar_id": sids[k], "missing": bool(e.missing)})
+                        els.append({"id": rids[k], "alias": als[k], "subvar_id": sids[k], "missing": bool(e.missing),
+                                    "derived": bool(e.derived)})
                 else:
                     tdef = dm._unshimmed_dimension_dict["type"]
                     edefs = tdef["categories"] if tdef["class"] == "categorical" else tdef["elements"]
